@@ -71,6 +71,10 @@ pub const HAND: &[&str] = &[
     "module m { let c = 5 }\nfrom t | derive x = m.c + a | select !{b}",
     "from t | loop (filter a < 3 | select {a = a + 1})",
     "from [{a = 1, b = 'x'}, {a = 2, b = 'y'}] | select {`my col` = a, b} | filter (b | in ['x', 'y'])",
+    // literals at the edges of their carriers: largest/smallest floats, a float beyond the range, integer limits
+    "from t | select {x = 1e308, y = 5e-324, z = 1.7976931348623157e308, w = 9223372036854775807, v = 0.1}",
+    "from t | select {x = 1e400}",
+    "from t | select {x = 99999999999999999999, y = -9223372036854775807, s = '\\u{10FFFF}\\x00'}",
 ];
 
 pub fn all_seeds() -> Vec<(String, String)> {
